@@ -714,6 +714,84 @@ def run(ctx):
         spec = dense_spec(ts, rng)
         run_oracle_on(sr, ctx, fnd, spec, targets=[tuple(nw)])
 
+    # ---- fermionic arrays with PENDING signs: targets that only insert size-one axes, and back (the plan is expand_dims /
+    #      squeeze steps only: nothing synchronises the signs on the way); arrays without fused axes, so that the pinned
+    #      families of the greedy unfuse branch cannot interfere
+    import gen
+    import replaylib
+    rl_describe = replaylib.describe_safe
+    lazy_stats = {'cases': 0, 'with_pending_signs': 0, 'nested_conj': 0}
+    for k in range(300 if ctx.thorough else 60):
+        try:
+            sym = ['Z2', 'U1', 'Z2Z2', 'U1U1'][k % 4]
+            x = gen.rand_array(rng, sr, sym, ndim=rng.randint(2, 3), fermionic=True, oddpos=rng.randint(1, 9), maxsize=2, lo=-3, hi=3,
+                               keep=rng.choice([1.0, 0.7]))
+            x = gen.rand_lazy(rng, sr, x, steps=rng.randint(1, 3))
+            if any(d == 1 for d in x.shape) or not x.blocks:
+                continue
+            spec = {'symmetry': sym, 'fermionic': True, 'full': rl_describe(x)}
+            t = expanded(rng, x.shape)
+            lazy_stats['cases'] += 1
+            lazy_stats['with_pending_signs'] += bool(x.phases)
+            ctx.count()
+            y = x.reshape(t)
+            fail = None
+            want = gen.densify(x).reshape(t)
+            got = gen.densify(y)
+            if got.shape != want.shape or not np.array_equal(got, want):
+                fail = {'kind': 'dense value after inserting size-one axes', 'leg': 'forward', 'detail': 'pending signs %r' % sorted(map(str, x.phases))}
+            else:
+                # the way back may merge the removed size-one axis into a neighbour and prune charges no stored sector uses
+                # (smaller axis): as for every expand target, only its value on the common part could be compared — when
+                # the shape does come back, the dense values must agree
+                z = y.reshape(x.shape)
+                if tuple(z.shape) == tuple(x.shape) and (z.charge != x.charge or not np.array_equal(gen.densify(z), gen.densify(x))):
+                    fail = {'kind': 'roundtrip value', 'leg': 'back', 'detail': 'shape %r charge %r' % (tuple(z.shape), z.charge)}
+            if fail:
+                ctx.violation('reshape of a fermionic array with pending signs: %s (%s)' % (fail['kind'], fail['detail'][:120]),
+                              {'oracle': 'reshape_lazy', 'spec': spec, 'array': describe(x), 'pending_signs': sorted(map(str, x.phases)),
+                               'target': list(t), 'failure': fail})
+            if x.phases:
+                ctx.nontrivial(('lazy-expand', spec['symmetry'], str(x.shape), str(t), str(sorted(map(str, x.phases)))))
+        except Exception as e:        # noqa: BLE001
+            ctx.note('lazy stream: %s: %s' % (type(e).__name__, e))
+    # ---- two levels of merging, conjugation, and back through both levels: equals the conjugate of the original
+    for k in range(200 if ctx.thorough else 40):
+        try:
+            sym = ['Z2', 'U1', 'Z2Z2', 'U1U1'][k % 4]
+            ferm = rng.random() < 0.5
+            x = gen.rand_array(rng, sr, sym, ndim=3, fermionic=ferm, oddpos=rng.randint(1, 9), maxsize=2, lo=-3, hi=3, keep=rng.choice([1.0, 0.7]))
+            if any(d == 1 for d in x.shape) or not x.blocks:
+                continue
+            spec = {'symmetry': sym, 'fermionic': ferm, 'full': rl_describe(x)}
+            y1 = x.fuse((0, 1))
+            y2 = y1.fuse((0, 1))
+            lazy_stats['nested_conj'] += 1
+            ctx.count()
+            zc = y2.conj()
+            via_unfuse = zc.unfuse(0).unfuse(0)
+            # abelian: this is the conjugate of the original.  Fermionic: conjugation signs depend on the rank, so only the
+            # second clause (merging again gives the conjugate of the merged array back) is stated
+            d = same_array(x.conj(), via_unfuse) if not ferm else None
+            if d is None:
+                # the same through reshape; a difference between the two routes is the business of the plan (pinned families)
+                try:
+                    via_reshape = zc.reshape(y1.shape).reshape(x.shape)
+                    if same_array(via_reshape, via_unfuse) is None:
+                        again = via_reshape.reshape(y1.shape).reshape(y2.shape)
+                        d2 = same_array(again, zc)
+                        if d2:
+                            d = 'merging again after un-merging the conjugate: ' + d2
+                except Exception:       # noqa: BLE001
+                    pass
+            if d:
+                ctx.violation('un-merging the conjugate of a twice-merged array does not give the conjugate of the original (%s)' % d,
+                              {'oracle': 'reshape_nested_conj', 'spec': spec, 'array': describe(x), 'failure': {'kind': 'nested conj', 'detail': d}})
+            ctx.nontrivial(('nested-conj', spec['symmetry'], spec['fermionic'], str(x.shape), str(sorted(x.blocks))))
+        except Exception as e:        # noqa: BLE001
+            ctx.note('nested-conj stream: %s: %s' % (type(e).__name__, e))
+    ctx.extra['lazy_and_nested_streams'] = lazy_stats
+
     # ---- array-level model (Model/ReshapeArray.a_reshape) vs the real reshape, on its own random arrays
     import tie_reshape
     tie_broken += tie_reshape.tie(ctx, sr)
